@@ -85,6 +85,18 @@ class Prov:
             if (len(self.match), len(self.src), len(self.none_ok)) == before:
                 break
 
+    def _ranges_over_words(self, name: str) -> bool:
+        """the name is bound to elements of the `words` token list (loop / comprehension variable over words[..], or words[i])"""
+        for n in walk_local(self.fn):
+            if isinstance(n, (ast.For, ast.comprehension)) and isinstance(n.target, ast.Name) and n.target.id == name:
+                base = n.iter.value if isinstance(n.iter, ast.Subscript) else n.iter
+                if isinstance(base, ast.Name) and base.id == "words":
+                    return True
+            if isinstance(n, ast.Assign) and any(isinstance(t, ast.Name) and t.id == name for t in n.targets) and isinstance(n.value, ast.Subscript) \
+                    and isinstance(n.value.value, ast.Name) and n.value.value.id == "words":
+                return True
+        return False
+
     def tuple_kinds(self, v: ast.AST, n: int) -> List[str]:
         if isinstance(v, ast.Call) and isinstance(v.func, ast.Attribute) and v.func.attr == "groups" and isinstance(v.func.value, ast.Name) \
                 and v.func.value.id in self.match:
@@ -152,7 +164,9 @@ class Prov:
                         return "SRC"
                 return f"OTHER:join {norm(e)[:40]}"
             if f == "str" and len(e.args) == 1:
-                return self.kind(e.args[0]) if not (isinstance(e.args[0], ast.Name) and e.args[0].id in ("token", "word", "w")) else "SRC"
+                if isinstance(e.args[0], ast.Name) and self._ranges_over_words(e.args[0].id):
+                    return "SRC"
+                return self.kind(e.args[0])
             if f in self.summaries and len(self.summaries[f]) == 1:
                 k = self.summaries[f][0]
                 if k == "SAME":
@@ -223,22 +237,24 @@ def rule_provenance(ctx: Ctx, typed: Typed):
     if len(calls) != 1 or len(calls[0].args) < 2 or not isinstance(calls[0].args[1], ast.Name):
         okm, why = False, "no single re.search(regex, text)"
     else:
-        TXT = calls[0].args[1].id
+        from ..motroles import bind as bind_mot
+
+        R = bind_mot(mot)
+        TXT, TOK = R["text"], R["token"]
         for s in stmts_local(mot.body):
             if isinstance(s, (ast.Assign, ast.AugAssign)) and TXT in assigned_names(s):
                 v = s.value
                 t = norm(v)
                 good = (
                     (isinstance(s, ast.Assign) and t == "prefix")
-                    or (isinstance(s, ast.AugAssign) and isinstance(s.op, ast.Add) and t == "str(token)")
-                    or (isinstance(s, ast.Assign) and t == f"str(token) + {TXT}")
+                    or (isinstance(s, ast.AugAssign) and isinstance(s.op, ast.Add) and t == f"str({TOK})")
+                    or (isinstance(s, ast.Assign) and t == f"str({TOK}) + {TXT}")
                     or (isinstance(s, ast.Assign) and isinstance(v, ast.Subscript) and norm(v.value) == TXT and isinstance(v.slice, ast.Slice))
                 )
                 if not good:
                     okm, why = False, f"text modified by `{norm(s)[:60]}`"
-        tok = [s for s in stmts_local(mot.body) if isinstance(s, ast.Assign) and norm(s.targets[0]) == "token"]
-        if not (len(tok) == 1 and norm(tok[0].value) == "words[index]"):
-            okm, why = False, "token is not words[index]"
+        if TOK is None or R["indexes"] is None:
+            okm, why = False, "the current token is not words[<index of the scan range>]"
     ctx.ob("R-C17-1", "helpers.match_on_tokens/text-from-adjacent-tokens", okm,
            "the text matched is prefix + str(words[i]) over a contiguous index range next to the citation, possibly truncated" if okm else why,
            node=mot, mod=hm)
@@ -371,6 +387,8 @@ def rule_extent_pairing(ctx: Ctx):
     fn = repo.need_func("helpers.add_defendant")
     C = fn.args.args[0].arg
     ok, n = True, 0
+    IDX = next((n.target.id for n in walk_local(fn) if isinstance(n, ast.For) and isinstance(n.target, ast.Name) and isinstance(n.iter, ast.Call)
+                and dotted(n.iter.func) == "range"), None)
     for p in enumerate_paths(fn.body):
         names = start = False
         positive: set = set()  # names known to be >= 1 (assigned `<loop index> + 1`)
@@ -385,7 +403,7 @@ def rule_extent_pairing(ctx: Ctx):
                 v = ev[1].value
                 if isinstance(ev[1].targets[0], ast.Name):
                     if isinstance(v, ast.BinOp) and isinstance(v.op, ast.Add) and isinstance(v.right, ast.Constant) and v.right.value == 1 \
-                            and isinstance(v.left, ast.Name) and v.left.id == "index":
+                            and isinstance(v.left, ast.Name) and v.left.id == IDX:
                         positive.add(ev[1].targets[0].id)
                     else:
                         positive.discard(ev[1].targets[0].id)
